@@ -73,6 +73,18 @@ def gen_c14():
         lns.append(ln)
     if len(set(exact)) != 1:
         raise E.ExtractError('dot/plus/minus(BasisFunction) size their result differently: ' + repr(exact))
+    # CooperativeQLearning constructor: is agentNormRews_ zeroed before it is incremented?
+    RELQ = 'src/Factored/MDP/Algorithms/CooperativeQLearning.cpp'
+    srcq = E.strip_comments(E.read(RELQ))
+    ctor, q_ln = body_of(srcq, r'CooperativeQLearning::CooperativeQLearning\s*\([^)]*\)\s*:[^{]*\{', 'CooperativeQLearning constructor')
+    mq = E.find1(r'CooperativeQLearning::CooperativeQLearning\s*\([^)]*\)\s*:([^{]*)\{', srcq, 'CooperativeQLearning initialiser list')
+    inits = norm(mq.group(1)); nctor = norm(ctor)
+    if '++agentNormRews_[a]' not in nctor:
+        raise E.ExtractError('CooperativeQLearning constructor: counting loop over agentNormRews_ not found')
+    zeroed = ('agentNormRews_.setZero()' in nctor.split('++agentNormRews_[a]')[0] or 'agentNormRews_.fill(0' in nctor.split('++agentNormRews_[a]')[0]
+              or re.search(r'agentNormRews_\((Vector::Zero|Eigen::VectorXd::Zero)\(', inits) is not None)
+    if not zeroed and 'agentNormRews_(graph_.getA().size())' not in inits:
+        raise E.ExtractError('CooperativeQLearning constructor: unrecognised initialisation of agentNormRews_')
     b = lambda x: 'true' if x else 'false'
     body = f'''/- GENERATED by tools/extract_c14.py from {REL} — do not edit. -/
 namespace AITB.Gen.C14
@@ -83,6 +95,9 @@ def minusEqualSubtracts : Bool := {b(subtracts)}
 /-- {REL}:{lns[0]},{lns[1]},{lns[2]} dot/plus/minus(BasisFunction) resize the result to factorSpacePartial(tag) (true) /
     to toIndexPartial(tag, space, space) (false) -/
 def binopAllocExact : Bool := {b(exact[0])}
+/-- {RELQ}:{q_ln} the CooperativeQLearning constructor zeroes `agentNormRews_` before counting (true) / counts on top
+    of an uninitialised Eigen vector (false) -/
+def coopNormZeroed : Bool := {b(zeroed)}
 
 end AITB.Gen.C14
 '''
